@@ -39,6 +39,14 @@ def run(tier: str, seed: int) -> int:
                 ok, errors = g.confirm_alone(c)
                 if ok:
                     continue
+                # control: the same declaration without the derive must be valid Rust, else the generator is wrong
+                from ..compilegroup import CompileGroup, Item
+                ctl_text = c.decl.text("#[derive(Clone, Copy)]", [], with_tool_attrs=False)
+                cok, cerrs = CompileGroup("domctl", tier).confirm_alone(Item(c.id, ctl_text, "accept"))
+                if not cok:
+                    inconclusive.append("generator error: declaration of case %d is not valid Rust even without the derive: %s -- %s" % (
+                        c.id, c.decl.short(), cerrs[0]["message"][:200] if cerrs else "?"))
+                    continue
                 violations.append(Violation(
                     prop, "C11|rejected|%s|%s|%s" % (c.decl.shape, c.decl.repr, errors[0]["message"][:60]),
                     "in-domain declaration does not compile: %s (%s) -- %s" % (
